@@ -311,8 +311,8 @@ func rulesC16(c *Ctx) {
 			same := false
 			for _, cc := range call {
 				if fn := as.Callee(cc); fn != nil && fn.Name() == "ApplyDefaults" {
-					if u, ok := ast.Unparen(cc.Args[0]).(*ast.UnaryExpr); ok && as.ObjOf(u.X) == subject {
-						same = true
+					if u, ok := ast.Unparen(as.valueOf(cc.Args[0])).(*ast.UnaryExpr); ok && as.ObjOf(u.X) == subject {
+						same = true // (also through a local that holds &subject: the pointer parameter of an expanded helper)
 					}
 				}
 			}
@@ -338,7 +338,7 @@ func rulesC16(c *Ctx) {
 						// a boolean variable that is assigned a literal somewhere (not the comma-ok of a type assertion)
 						if o, isVar := as.ObjOf(id).(*types.Var); isVar {
 							for _, w := range as.writesToVar(as.Body, o, true) {
-								if st, ok := w.(*ast.AssignStmt); ok && len(st.Rhs) == 1 && (exprStr(st.Rhs[0]) == "true" || exprStr(st.Rhs[0]) == "false") {
+								if rhs := rhsFor(as, w, o); rhs != nil && (exprStr(rhs) == "true" || exprStr(rhs) == "false") {
 									flag = o
 								}
 							}
@@ -361,8 +361,7 @@ func rulesC16(c *Ctx) {
 			if !after {
 				continue
 			}
-			st, isAs := w.(*ast.AssignStmt)
-			if !isAs || len(st.Rhs) != 1 || exprStr(st.Rhs[0]) != "true" {
+			if rhs := rhsFor(as, w, flag); rhs == nil || exprStr(rhs) != "true" {
 				okFlag = false // false, or computed from something else (e.g. a size comparison): not a faithful record
 			}
 		}
@@ -371,7 +370,7 @@ func rulesC16(c *Ctx) {
 		for _, dv := range defV {
 			okp, _ := ag.MustPass(dv, valV, func(v int) bool {
 				for _, w := range as.writesToVar(ag.Node(v), flag, false) {
-					if st, ok := w.(*ast.AssignStmt); ok && exprStr(st.Rhs[0]) == "true" {
+					if rhs := rhsFor(as, w, flag); rhs != nil && exprStr(rhs) == "true" {
 						return true
 					}
 				}
@@ -817,4 +816,18 @@ func decodeErrorReturns(f *Func, g *Graph, v int, derr types.Object, hv int) boo
 		return g.allPathsPass(t, marks)
 	}
 	return false
+}
+
+// rhsFor: the expression assigned to variable o by the assignment w (also in `a, b = x, y`); nil when there is none.
+func rhsFor(f *Func, w ast.Node, o types.Object) ast.Expr {
+	st, ok := w.(*ast.AssignStmt)
+	if !ok || len(st.Lhs) != len(st.Rhs) {
+		return nil
+	}
+	for i, l := range st.Lhs {
+		if f.ObjOf(l) == o {
+			return st.Rhs[i]
+		}
+	}
+	return nil
 }
